@@ -106,7 +106,7 @@ def binop(ip, st, op, a, b):
     if not is_sym(a) and not is_sym(b) and not isinstance(a, Ref) and not isinstance(b, Ref):
         return concrete_binop(ip, st, op, a, b)
     # list operations
-    if isinstance(a, Ref) or isinstance(b, Ref):
+    if isinstance(a, Ref) or isinstance(b, Ref) or _is_listy(a, st) or _is_listy(b, st):
         return list_binop(ip, st, op, a, b)
     ta, tb = type_of(a, st), type_of(b, st)
     if ta in ('str', 'bytes') or tb in ('str', 'bytes'):
@@ -282,7 +282,22 @@ def str_binop(ip, st, op, a, b, ta, tb):
     raise Unsupported('str binop %s' % type(op).__name__)
 
 
+def _is_listy(v, st):
+    if isinstance(v, Sym):
+        return isinstance(v.ty, tuple) and v.ty[0] == 'list'
+    return isinstance(v, Ref) and isinstance(st.get(v), LObj)
+
+
 def list_binop(ip, st, op, a, b):
+    if isinstance(op, ast.Add) and _is_listy(a, st) and _is_listy(b, st) and (isinstance(a, Sym) or isinstance(b, Sym)):
+        ta, tb = type_of(a, st), type_of(b, st)
+        t = ta or tb
+        if ta is not None and tb is not None and ta != tb:
+            e = unify_ty(ta[1], tb[1])
+            t = ('list', e) if e is not None else None
+        if t is None:
+            raise Unsupported('list + list of unknown element type')
+        return st.new_symlist(z3.Concat(lift(a, st, t), lift(b, st, t)), t[1])
     if isinstance(op, ast.Add) and isinstance(a, Ref) and isinstance(b, Ref):
         pa, pb = st.get(a), st.get(b)
         if isinstance(pa, LObj) and isinstance(pb, LObj):
